@@ -66,7 +66,7 @@ pub(crate) mod verif_dec {
                     OPENED += 1;
                     PENDING = i;
                 }
-                return Ok(if e.ptlen == 0 { Vec::new() } else { e.pt[..e.ptlen].to_vec() }); // (to_vec of an empty slice trips a Kani model quirk)
+                { let mut v = e.pt.to_vec(); v.truncate(e.ptlen); return Ok(v); } // never a capacity-0 Vec: an empty Vec returned from a stub trips a Kani model quirk (bogus dealloc)
             }
         });
         Err(crate::errors::ChaPolyDecryptError)
@@ -409,5 +409,260 @@ pub(crate) mod verif_dec {
         kani::cover!(r.calls > 6);
         kani::cover!(plen == 1);
         core::mem::forget(res);
+    }
+}
+
+// H-HDR (decrypt side): the REAL key_decrypt / pass_decrypt / valid_file_format on an unconstrained byte stream,
+// with Noise, HKDF, scrypt and the chunk loop replaced by recorders.
+#[allow(dead_code, static_mut_refs, unused_imports, unused_variables, unused_mut)]
+pub(crate) mod verif_hdr_dec {
+    use super::*;
+    use crate::errors::NoiseError;
+    use crate::{NoiseDecryptMsg, PayloadKey};
+    use std::io::{Read, Write};
+
+    pub static mut R_CONSUMED: usize = 0;
+    pub static mut R_CALLS: usize = 0;
+    /// header bytes: unconstrained content, unconstrained length; delivers everything available.
+    pub struct HdrReader { pub data: [u8; 140], pub len: usize }
+    impl Read for HdrReader {
+        fn read(&mut self, buf: &mut [u8]) -> std::io::Result<usize> {
+            unsafe {
+                R_CALLS += 1;
+                let rem = self.len - R_CONSUMED;
+                let k = if rem < buf.len() { rem } else { buf.len() };
+                buf[..k].copy_from_slice(&self.data[R_CONSUMED..R_CONSUMED + k]);
+                R_CONSUMED += k;
+                Ok(k)
+            }
+        }
+        fn read_exact(&mut self, buf: &mut [u8]) -> std::io::Result<()> {
+            let want = buf.len();
+            let k = self.read(buf)?;
+            if k < want { Err(std::io::Error::from(std::io::ErrorKind::UnexpectedEof)) } else { Ok(()) }
+        }
+    }
+    pub static mut P_WRITES: usize = 0;
+    pub static mut P_FLUSHES: usize = 0;
+    pub struct PCount;
+    impl Write for PCount {
+        fn write(&mut self, buf: &[u8]) -> std::io::Result<usize> { unsafe { P_WRITES += 1; } Ok(buf.len()) }
+        fn flush(&mut self) -> std::io::Result<()> { unsafe { P_FLUSHES += 1; } Ok(()) }
+    }
+
+    #[derive(Clone, Copy)]
+    pub struct NdArgs { n: usize, r: [u8; 32], rpk: [u8; 32], prologue: [u8; 4], plen: usize, msg: [u8; 128], mlen: usize, consumed_at_call: usize }
+    pub static mut ND: NdArgs = NdArgs { n: 0, r: [0; 32], rpk: [0; 32], prologue: [0; 4], plen: 0, msg: [0; 128], mlen: 0, consumed_at_call: 0 };
+    pub static mut ND_FAIL: bool = false;
+    pub static mut ND_PAYLOAD: [u8; 32] = [0; 32];
+    pub static mut ND_SENDER: [u8; 32] = [0; 32];
+    pub static mut ND_HH: [u8; 32] = [0; 32];
+    pub fn noise_decrypt_rec(recipient: &PrivateKey, recipient_public: &PublicKey, prologue: &[u8], handshake_message: &[u8]) -> Result<NoiseDecryptMsg, NoiseError> {
+        unsafe {
+            ND.n += 1;
+            ND.r.copy_from_slice(recipient.as_bytes());
+            ND.rpk.copy_from_slice(recipient_public.as_bytes());
+            ND.plen = prologue.len();
+            if prologue.len() == 4 { ND.prologue.copy_from_slice(prologue); }
+            ND.mlen = handshake_message.len();
+            if handshake_message.len() == 128 { ND.msg.copy_from_slice(handshake_message); }
+            ND.consumed_at_call = R_CONSUMED;
+            if ND_FAIL { return Err(NoiseError::Decrypt); }
+            let (p, s, h): ([u8; 32], [u8; 32], [u8; 32]) = (kani::any(), kani::any(), kani::any());
+            ND_PAYLOAD = p; ND_SENDER = s; ND_HH = h;
+            Ok(NoiseDecryptMsg { payload_key: PayloadKey::new(&p), public_key: PublicKey::try_from(&s[..]).unwrap(), handshake_hash: h })
+        }
+    }
+    pub static mut HK: (usize, usize, [u8; 32], usize, [u8; 32], usize, usize) = (0, 0, [0; 32], 0, [0; 32], 0, 0);
+    pub static mut HK_OUT: [u8; 32] = [0; 32];
+    pub fn hkdf_rec(salt: &[u8], ikm: &[u8], info: &[u8], len: usize) -> Vec<u8> {
+        unsafe {
+            HK.0 += 1;
+            HK.1 = salt.len();
+            HK.3 = ikm.len();
+            if ikm.len() == 32 { HK.2.copy_from_slice(ikm); }
+            HK.5 = info.len();
+            if info.len() == 32 { HK.4.copy_from_slice(info); }
+            HK.6 = len;
+            let o: [u8; 32] = kani::any();
+            HK_OUT = o;
+            o.to_vec()
+        }
+    }
+    pub static mut DC: (usize, [u8; 32], usize, [u8; 4], usize, u32, usize, usize) = (0, [0; 32], 0, [0; 4], 0, 0, 0, 0); // n, key, keylen, aad, aadlen, cs, consumed_at_call, p_writes_at_call
+    pub static mut DC_FAIL: bool = false;
+    pub fn decrypt_chunks_rec<T: Read, U: Write>(ciphertext: &mut T, plaintext: &mut U, key: &[u8], aad: &[u8], chunk_size: u32) -> Result<(), DecryptError> {
+        unsafe {
+            DC.0 += 1;
+            DC.2 = key.len();
+            if key.len() == 32 { DC.1.copy_from_slice(key); }
+            DC.4 = aad.len();
+            if aad.len() == 4 { DC.3.copy_from_slice(aad); }
+            DC.5 = chunk_size;
+            DC.6 = R_CONSUMED;
+            DC.7 = P_WRITES + P_FLUSHES;
+            if DC_FAIL { return Err(DecryptError::ChaPolyDecrypt); }
+        }
+        let _ = plaintext.write(&[0u8; 1]);
+        Ok(())
+    }
+
+    /// C01(b)/C03/C05/C09/C13: key_decrypt on ANY bytes of any length 0..140.
+    #[kani::proof]
+    #[kani::stub(crate::noise_decrypt, noise_decrypt_rec)]
+    #[kani::stub(crate::hkdf_sha256, hkdf_rec)]
+    #[kani::stub(crate::decrypt::decrypt_chunks, decrypt_chunks_rec)]
+    #[kani::unwind(130)]
+    pub fn hdr_key_decrypt() {
+        let data: [u8; 140] = kani::any();
+        let len: usize = kani::any();
+        kani::assume(len <= 140);
+        let (r, rpk): ([u8; 32], [u8; 32]) = (kani::any(), kani::any());
+        let nfail: bool = kani::any();
+        let cfail: bool = kani::any();
+        unsafe { ND_FAIL = nfail; DC_FAIL = cfail; }
+        let sk = PrivateKey::try_from(&r[..]).unwrap();
+        let pk = PublicKey::try_from(&rpk[..]).unwrap();
+        let mut rd = HdrReader { data, len };
+        let mut w = PCount;
+        let res = key_decrypt(&mut rd, &mut w, &sk, &pk, AsymFileFormat::V1);
+        let magic_ok = len >= 4 && data[0] == 0x65 && data[1] == 0x67 && data[2] == 0x6b && data[3] == 0x10;
+        unsafe {
+            if !magic_ok {
+                assert!(res.is_err(), "[C03,C09] a file that does not start with the key-mode magic is rejected");
+                assert!(ND.n == 0 && DC.0 == 0 && P_WRITES == 0 && P_FLUSHES == 0, "[C03,C13] ... before anything is decrypted or written");
+                assert!(R_CONSUMED <= 4, "[C03,C09] ... after reading at most the 4 magic bytes");
+            } else if len < 132 {
+                assert!(matches!(res, Err(DecryptError::IORead(_))), "[C03,C09] a truncated header is a read error, not a panic");
+                assert!(ND.n == 0 && DC.0 == 0 && P_WRITES == 0 && P_FLUSHES == 0, "[C13] nothing is written for a truncated header");
+            } else {
+                assert!(ND.n == 1 && ND.consumed_at_call == 132, "[C06] exactly the 132-byte header is read before the handshake is processed");
+                assert!(ND.r == r && ND.rpk == rpk, "[C05,C01] the handshake is processed with the caller's recipient key pair");
+                assert!(ND.plen == 4 && ND.prologue == [0x65, 0x67, 0x6b, 0x10], "[C06] the prologue is the 4 magic bytes read from the file");
+                let mut ok = ND.mlen == 128;
+                let mut j = 0;
+                while j < 128 { if ND.msg[j] != data[4 + j] { ok = false; } j += 1; }
+                assert!(ok, "[C06,C03] the handshake message is bytes 4..132 of the file");
+                if nfail {
+                    assert!(matches!(res, Err(DecryptError::Other(_))), "[C05,C03] a handshake that does not verify is an error");
+                    assert!(DC.0 == 0 && P_WRITES == 0 && P_FLUSHES == 0, "[C13,C04,C05] nothing is written or flushed when the handshake fails");
+                } else {
+                    assert!(HK.0 == 1 && HK.1 == 0 && HK.3 == 32 && HK.2 == ND_PAYLOAD && HK.5 == 32 && HK.4 == ND_HH && HK.6 == 32, "[C06,C01] file key = HKDF-SHA256(salt empty, ikm = payload key, info = handshake hash, 32)");
+                    assert!(DC.0 == 1 && DC.2 == 32 && DC.1 == HK_OUT && DC.4 == 0 && DC.5 == 65536, "[C06,C01,C09] chunks are opened under the file key, empty aad, chunk size 65536");
+                    assert!(DC.6 == 132 && DC.7 == 0, "[C04,C13] the chunk loop starts right after the header; nothing was written or flushed before it");
+                    match &res {
+                        Ok(sender) => { assert!(!cfail && sender.as_bytes() == &ND_SENDER[..], "[C01,C05,C12] success only if every chunk verified; the reported sender is the key the handshake authenticated"); }
+                        Err(_) => { assert!(cfail, "[C01] failure only if the chunk loop failed"); }
+                    }
+                }
+            }
+        }
+        kani::cover!(res.is_ok());
+        kani::cover!(magic_ok && len == 131);
+        kani::cover!(len == 0);
+        kani::cover!(magic_ok && len >= 132 && nfail);
+        core::mem::forget(res); core::mem::forget(sk);
+    }
+
+    pub static mut SC: (usize, [u8; 4], usize, [u8; 32], usize, usize, usize, usize, usize) = (0, [0; 4], 0, [0; 32], 0, 0, 0, 0, 0);
+    pub static mut SC_OUT: [u8; 32] = [0; 32];
+    pub fn scrypt_rec(password: &[u8], salt: &[u8], n: usize, r: usize, p: usize, dk_len: usize) -> Vec<u8> {
+        unsafe {
+            SC.0 += 1;
+            SC.2 = password.len();
+            let mut j = 0;
+            while j < 4 { if j < password.len() { SC.1[j] = password[j]; } j += 1; }
+            SC.4 = salt.len();
+            if salt.len() == 32 { SC.3.copy_from_slice(salt); }
+            SC.5 = n; SC.6 = r; SC.7 = p; SC.8 = dk_len;
+            let o: [u8; 32] = kani::any();
+            SC_OUT = o;
+            o.to_vec()
+        }
+    }
+
+    /// C02/C03/C09/C13: pass_decrypt on ANY bytes of any length 0..60.
+    #[kani::proof]
+    #[kani::stub(crate::scrypt::scrypt, scrypt_rec)]
+    #[kani::stub(crate::decrypt::decrypt_chunks, decrypt_chunks_rec)]
+    #[kani::unwind(130)]
+    pub fn hdr_pass_decrypt() {
+        let data: [u8; 140] = kani::any();
+        let len: usize = kani::any();
+        kani::assume(len <= 60);
+        let pwb: [u8; 4] = kani::any();
+        let pl: usize = kani::any();
+        kani::assume(pl <= 4);
+        let cfail: bool = kani::any();
+        unsafe { DC_FAIL = cfail; }
+        let mut rd = HdrReader { data, len };
+        let mut w = PCount;
+        let res = pass_decrypt(&mut rd, &mut w, &pwb[..pl], PassFileFormat::V1);
+        let magic_ok = len >= 4 && data[0] == 0x65 && data[1] == 0x67 && data[2] == 0x6b && data[3] == 0x20;
+        unsafe {
+            if !magic_ok {
+                assert!(res.is_err(), "[C03,C09] a file that does not start with the password-mode magic is rejected");
+                assert!(SC.0 == 0 && DC.0 == 0 && P_WRITES == 0 && P_FLUSHES == 0 && R_CONSUMED <= 4, "[C03,C09,C13] ... before any key derivation, decryption or write");
+            } else if len < 36 {
+                assert!(matches!(res, Err(DecryptError::IORead(_))), "[C03,C09] a truncated header is a read error, not a panic");
+                assert!(SC.0 == 0 && DC.0 == 0 && P_WRITES == 0 && P_FLUSHES == 0, "[C13,C09] no key derivation and no write for a truncated header");
+            } else {
+                let mut ok = SC.0 == 1 && SC.2 == pl && SC.4 == 32;
+                let mut j = 0;
+                while j < 32 { if SC.3[j] != data[4 + j] { ok = false; } j += 1; }
+                let mut j = 0;
+                while j < 4 { if j < pl && SC.1[j] != pwb[j] { ok = false; } j += 1; }
+                assert!(ok, "[C02,C06] the key is scrypt(the caller's password, the salt = bytes 4..36 of the file)");
+                assert!(SC.5 == 32768 && SC.6 == 8 && SC.7 == 1 && SC.8 == 32, "[C02,C06,C09] scrypt cost parameters are the constants 32768/8/1, whatever the file says");
+                assert!(DC.0 == 1 && DC.2 == 32 && DC.1 == SC_OUT && DC.5 == 65536, "[C02,C06] chunks are opened under the scrypt key, chunk size 65536");
+                assert!(DC.4 == 4 && DC.3 == [0x65, 0x67, 0x6b, 0x20], "[C02,C06] chunk aad = the magic bytes");
+                assert!(DC.6 == 36 && DC.7 == 0, "[C04,C13] the chunk loop starts right after the 36-byte header; nothing written before");
+                assert!(res.is_ok() == !cfail, "[C02,C12] success iff every chunk verified");
+            }
+        }
+        kani::cover!(res.is_ok() && pl == 0);
+        kani::cover!(magic_ok && len == 35);
+        kani::cover!(len == 0);
+        core::mem::forget(res);
+    }
+
+    /// C02: decrypting under a key other than the one the file was sealed with (E-KDF: another password => another
+    /// key) fails on the very first chunk, for EVERY byte stream, and releases nothing.
+    #[kani::proof]
+    #[kani::stub(crate::chapoly_decrypt_noise, crate::decrypt::verif_dec::open_tracking)]
+    #[kani::unwind(4)]
+    pub fn dec_wrong_key_cs2() {
+        use crate::decrypt::verif_dec::*;
+        let n: usize = kani::any();
+        kani::assume(n >= 1 && n <= 2);
+        let magic = [0x65u8, 0x67, 0x6b, 0x20];
+        unsafe { DEC_AADLEN = 4; BASE = 0; }
+        let plen = authentic_file(n, 2, &magic, 0x11, 0);
+        let total: usize = kani::any();
+        kani::assume(total <= 70);
+        let mut r = AnyReader { remaining: total, calls: 0, maxbuf: 0, fault_at: NONE, fault_kind: 3, faulted: false };
+        let mut w = PSink::new();
+        let other_key = [0x22u8; 32];
+        let res = decrypt_chunks(&mut r, &mut w, &other_key, &magic, 2);
+        assert!(res.is_err(), "[C02] under any other key decryption fails");
+        assert!(w.writes == 0 && w.flushes == 0 && unsafe { OPENED } == 0, "[C02,C13] ... and releases no plaintext: nothing is written or flushed");
+        kani::cover!(matches!(res, Err(DecryptError::ChaPolyDecrypt)));
+        core::mem::forget(res);
+    }
+
+    /// C09: valid_file_format on any header of any length 0..8.
+    #[kani::proof]
+    #[kani::unwind(130)]
+    pub fn hdr_valid_file_format() {
+        let b: [u8; 8] = kani::any();
+        let n: usize = kani::any();
+        kani::assume(n <= 8);
+        let r = valid_file_format(&b[..n]);
+        let is = |m: u8| n == 4 && b[0] == 0x65 && b[1] == 0x67 && b[2] == 0x6b && b[3] == m;
+        match r {
+            Ok(FileFormat::AsymV1) => assert!(is(0x10), "[C06,C03] only 65 67 6B 10 is the key-mode magic"),
+            Ok(FileFormat::PassV1) => assert!(is(0x20), "[C06,C03] only 65 67 6B 20 is the password-mode magic"),
+            Err(_) => assert!(!is(0x10) && !is(0x20), "[C06] both magics are recognised"),
+        }
     }
 }
